@@ -291,7 +291,7 @@ func (s *InMemoryStore) CreateTopic(ctx context.Context, spec TopicSpec) (*proto
 		return nil, ctx.Err()
 	default:
 	}
-	if spec.Name == "" || spec.NumPartitions <= 0 {
+	if !validTopicName(spec.Name) || spec.NumPartitions <= 0 {
 		return nil, ErrInvalidTopic
 	}
 	if spec.ReplicationFactor <= 0 {
@@ -326,6 +326,25 @@ func (s *InMemoryStore) CreateTopic(ctx context.Context, spec TopicSpec) (*proto
 	s.state.Topics = append(s.state.Topics, newTopic)
 	s.topicConfigs[spec.Name] = defaultTopicConfigFromTopic(&newTopic, spec.ReplicationFactor)
 	return &newTopic, nil
+}
+
+// validTopicName applies Kafka's topic name rules: 1-249 characters from
+// [a-zA-Z0-9._-], and not "." or "..". Topic names become S3 path segments and
+// parts of colon-joined metadata keys, so separators and dot segments would let
+// one topic alias another topic's (or partition's) storage.
+func validTopicName(name string) bool {
+	if name == "" || name == "." || name == ".." || len(name) > 249 {
+		return false
+	}
+	for i := 0; i < len(name); i++ {
+		c := name[i]
+		switch {
+		case c >= 'a' && c <= 'z', c >= 'A' && c <= 'Z', c >= '0' && c <= '9', c == '.', c == '_', c == '-':
+		default:
+			return false
+		}
+	}
+	return true
 }
 
 func topicHasPartition(topics []protocol.MetadataTopic, name string, partition int32) bool {
